@@ -82,9 +82,11 @@ class ExprMixin:
     def check(self, st, goal, kind, label, node=None):
         """Emit an obligation for ``goal`` under the current path and assume it afterwards."""
         goal = z3.simplify(goal)
-        if z3.is_true(goal):
-            return
         if st.ghost:
+            return
+        if z3.is_true(goal):
+            if kind in ("post", "raises", "frame", "lemma", "inv-init", "inv-keep", "decreases", "pre"):
+                self.add_obligation(st, goal, kind, label, node)       # still an obligation of the contract: recorded as discharged by rewriting
             return
         self.add_obligation(st, goal, kind, label, node)
         st.assume(goal)
@@ -313,6 +315,9 @@ class ExprMixin:
         if isinstance(ty, TSeq):
             return self._elem_guard(x, ty.elem, lambda t: z3.Contains(container.t, z3.Unit(t)))
         if isinstance(ty, TRec):
+            kt = z3.simplify(x.t) if isinstance(x, Val) and isinstance(x.ty, TStr) else None
+            if kt is not None and z3.is_string_value(kt) and kt.as_string() in ty.fields:
+                return ty.present(container.terms, kt.as_string())
             raise Unsupported("`in` on record with non-literal key", node)
         raise Unsupported("`in` on %r" % ty, node)
 
@@ -577,7 +582,7 @@ class ExprMixin:
         if isinstance(ty, TRec):
             fname = self._lit_key(idx, node)
             lo, hi, ft = ty.field_slice(fname)
-            for st1, ok in self.branch(st, base.terms[lo]):
+            for st1, ok in self.branch(st, ty.present(base.terms, fname)):
                 if ok:
                     yield st1, Val(ft, base.terms[lo + 1:hi])
                 else:
